@@ -41,6 +41,13 @@ def c20_argv(tier, seed, shard, out):
             "--out", out, "--replays", os.path.join(root, "harness", "replays"), "--known", os.path.join(root, "known_findings.txt")]
 
 
+def c06_rustc_argv(tier, seed, shard, out):
+    import os
+    root = os.path.dirname(os.path.dirname(os.path.abspath(__file__)))
+    return ["python3", os.path.join(root, "lib", "c06_rustc.py"), "--seed", str(seed), "--tier", tier, "--shard", str(shard),
+            "--out", out, "--replays", os.path.join(root, "harness", "replays"), "--known", os.path.join(root, "known_findings.txt")]
+
+
 def fuzz(target, prop, runs, shards=8, sub=None):
     """A libFuzzer campaign as a thorough-tier step. With `sub`, the target is `oracle` and the semantic
     oracle of the named L1/L2 check runs on libFuzzer's bytes (vchecks::fuzz)."""
@@ -93,7 +100,9 @@ CHECKS = {
     },
     "C06": {
         "packages": ["vchecks"],
-        "steps": [vc("c06", "derive", 60000, 8000000), fuzz("derive_total", "C06", 400000)],
+        "steps": [vc("c06", "derive", 60000, 8000000),
+                  {"argv": c06_rustc_argv, "sub": "c06-rustc", "step": "rustc", "cases": {"quick": 1, "thorough": 1}, "shards": {"quick": 1, "thorough": 8}},
+                  fuzz("derive_total", "C06", 400000)],
         "assumptions": L1_ASSUME + ["darling_core::derive::* is what the proc-macro entry points in macro/src/lib.rs call after syn parsing; inputs are items syn accepts"],
     },
     "C10": {
